@@ -52,6 +52,21 @@ def strategy(tier):
     return _case()
 
 
+def zero_corner_ambiguous(W, model):
+    """True if some layer sits, for some tabulated molecule, within a few ulp of the table's lowest pressure while being
+    colder than its lowest temperature: there the documented zero corner makes the opacity discontinuous, and which
+    side a layer pressure computed as sqrt(P_i P_i+1) falls on is a matter of the last bit (judged in C04, both
+    sides accepted).  Such a case cannot be compared with a reference and is set aside (counted)."""
+    T = np.asarray(model.temperatureProfile, dtype=float)
+    P = np.asarray(model.pressureProfile, dtype=float)
+    for mol, (Tg, Pg, tab, wn) in W.tables.items():
+        lp0 = math.log10(Pg[0])
+        for l in range(len(T)):
+            if T[l] < Tg[0] and abs(math.log10(P[l]) - lp0) <= 8 * np.spacing(abs(lp0)) + 1e-300:
+                return True
+    return False
+
+
 def absorption_sigma_ref(W, model):
     T = np.asarray(model.temperatureProfile)
     P = np.asarray(model.pressureProfile)
@@ -99,6 +114,9 @@ def check(case):
         return out
     def judge(m, depth, trans, Rp, sfx):
         nl = w['nlayers']
+        if zero_corner_ambiguous(W, m):
+            out.cls('ambiguous-zero-corner')
+            return None
         Rs = w['star_R'] * RSUN
         z = np.asarray(m.altitudeProfile, dtype=float)
         dz = np.asarray(m.deltaz, dtype=float)
